@@ -312,15 +312,18 @@ class SimpleGPCsv(Facet):
             for k in range(case["n_extra"]):
                 extras[f"X{k}"] = (lambda k: (lambda p: f"x{k}:{canon_nodes(canon(p, info)) * (k + 1)}"))(k)
 
+            # one objective may also be declared the multi-objective way: minimize=[b], fitness [v]
+            list1 = (not case["multi"]) and case["seed"] % 3 == 0
+
             def ff(p):
                 n = canon_nodes(canon(p, info))
-                return [float(n % 5), float(n % 3)] if case["multi"] else float(n % 5)
+                return [float(n % 5), float(n % 3)] if case["multi"] else ([float(n % 5)] if list1 else float(n % 5))
 
-            rec.label(f"extra={case['n_extra']}", "multi" if case["multi"] else "single")
+            rec.label(f"extra={case['n_extra']}", "multi" if case["multi"] else ("single-as-one-element-list" if list1 else "single"))
             rec.sample(case, limit=2)
             try:
                 gp = SimpleGP(
-                    fitness_function=ff, grammar=g, minimize=[False, True] if case["multi"] else False, max_depth=4, max_evaluations=case["evals"], max_time=600,
+                    fitness_function=ff, grammar=g, minimize=[False, True] if case["multi"] else ([False] if list1 else False), max_depth=4, max_evaluations=case["evals"], max_time=600,
                     csv_output=path, csv_extra_fields=extras or None, only_record_best_individuals=case["only_best"], seed=case["seed"],
                     population_size=case["pop"], elitism=1, novelty=1,
                 )
@@ -357,6 +360,19 @@ class SimpleGPCsv(Facet):
                     if row[2 + k + kx] != want:
                         rec.fail("C20/simplegp/cell-mismatch/extra-field", f"row {ri}: column X{kx} = {row[2 + k + kx]!r}, computed from that individual's program it is {want!r}")
                         return
+            if case["only_best"] and k == 1:
+                # "only strict improvements when so configured": with one objective (maximised here) every
+                # row must beat all rows before it
+                best = None
+                for ri, row in enumerate(rows[1:]):
+                    v = float(row[2])
+                    if best is not None and not v > best:
+                        rec.fail(
+                            "C20/simplegp/best-only/row-for-an-individual-that-is-no-improvement",
+                            f"best-only log of a single-objective run ({'minimize=[False]' if list1 else 'minimize=False'}): row {ri} has fitness {v} after a row with {best}",
+                        )
+                        return
+                    best = v if best is None else max(best, v)
             if case["n_extra"] >= 2 and len(rows) >= 3:
                 rec.nontrivial(case)
         finally:
